@@ -116,6 +116,8 @@ static const long long LEEWAYS[] = {-1, -2, -100, LLONG_MIN, 0, 1, 5, 3600, 1LL 
 static const long long CLOCKS[] = {0, 1, 1700000000, 1LL << 41, 86400};
 static const int BADFLAGS[] = {JWT_CLAIM_EXP, JWT_CLAIM_NBF, JWT_CLAIM_IAT, JWT_CLAIM_JTI, JWT_CLAIM_ISS | JWT_CLAIM_SUB, 0, 0x80};
 
+// an application callback that only looks at the token (reads two claims) and leaves key, algorithm and token alone: claim checks are the same with it
+static int observe_cb(jwt_t *jwt, jwt_config_t *) { jwt_value_t v = val_get(JWT_VALUE_STR, "iss"); (void)jwt_claim_get(jwt, &v); v = val_get(JWT_VALUE_INT, "exp"); (void)jwt_claim_get(jwt, &v); return 0; }
 // returns "" if the run agrees with the model; else the violated clause (signature suffix)
 static std::string run_ops(const std::vector<Op> &ops, bool count) {
   Stats &st = stats(); CURP = &ops; TRACE.clear();
@@ -124,6 +126,8 @@ static std::string run_ops(const std::vector<Op> &ops, bool count) {
   jwt_checker_t *ck2 = jwt_checker_new();   // HS256 tokens
   jwt_checker_setkey(ck2, JWT_ALG_HS256, HSLK->item);
   jwt_checker_t *cks[2] = {ck1, ck2};
+  static int cbctx = 0; bool with_cb = !ops.empty() && ((ops[0].a ^ ops[0].b) & 1);   // every second sequence: both checkers have an observing callback
+  if (with_cb) { for (auto c : cks) jwt_checker_setcb(c, observe_cb, &cbctx); if (count) st.cls("sequences-with-an-observing-callback"); TRACE += "observing-callback; "; }
   std::string bad; bool after_del = false;
   for (const Op &o : ops) {
     if (!bad.empty()) break;
